@@ -467,7 +467,7 @@ def parse_case(ctx, rng):
         for kind in ("raw", "buffered", rng.choice(["rwpair", "response-like", "duck-blocking-read"]),
                      rng.choice(["socket-raw", "socket-buffered"])):
             for integ in integs:
-                entry = rng.choice(["flat", "flat", "grouped"])
+                entry = rng.choice(["flat", "flat", "grouped", "to_graph"])
                 f, cleanup = stall_source(kind, data, limit, rng)
                 got = []
                 exc = None
@@ -475,6 +475,37 @@ def parse_case(ctx, rng):
                     if entry == "flat":
                         evs, exc = pj.run_flat_collect(integ, f)
                         got = T.norm_events(evs)
+                    elif entry == "to_graph":
+                        # the sink-filling entry point: what has reached the CALLER'S store when the source stalls
+                        held = []
+                        try:
+                            if integ == "generic":
+                                from pyjelly.integrations.generic import parse as _gp
+                                from pyjelly.integrations.generic.generic_sink import GenericStatementSink
+
+                                def _sf():
+                                    held.append(GenericStatementSink())
+                                    return held[-1]
+                                _gp.parse_jelly_to_graph(f, sink_factory=_sf)
+                            else:
+                                import rdflib
+                                from pyjelly.integrations.rdflib import parse as _rp
+
+                                def _gf():
+                                    held.append(rdflib.Graph(bind_namespaces="none"))
+                                    return held[-1]
+
+                                def _df():
+                                    held.append(rdflib.Dataset(default_union=False))
+                                    return held[-1]
+                                _rp.parse_jelly_to_graph(f, graph_factory=_gf, dataset_factory=_df)
+                        except Exception as e:  # noqa: BLE001
+                            exc = e
+                        for store in held:
+                            if integ == "generic":
+                                got.extend(T.norm_events([T.event_from_generic(x) for x in store]))
+                            else:
+                                got.extend(T.norm_events([("stmt", x) for x in T.rdflib_store_statements(store)]))
                     else:
                         try:
                             for sts, nss, _m in pj.iter_grouped(integ, f):
@@ -489,10 +520,10 @@ def parse_case(ctx, rng):
                     ctx.inconc(f"socket watchdog fired: {exc}")
                     continue
                 want = all_events[:cum[j - 1]]
-                if entry == "grouped":
+                if entry in ("grouped", "to_graph"):
                     want = [e for e in want if e[0] == "stmt"]
                 w = None
-                ok = (got == want) if not (entry == "grouped" and integ == "rdflib") else (set(got) == set(want))
+                ok = (got == want) if not (entry == "to_graph" or (entry == "grouped" and integ == "rdflib")) else (set(got) == set(want))
                 if not isinstance(exc, sources.Stalled):
                     w = {"clause": "no-stall-observed", "summary": f"{integ}:{entry} over {kind}: expected the source to stall, got "
                                                                    f"{type(exc).__name__ if exc else 'normal end'}: {exc}"}
